@@ -959,7 +959,8 @@ impl Ontology {
         // is linked to roughly half of all diseases
         let phenotype_ids: HpoGroup = terms
             .iter()
-            .filter(|term| (term.all_parents() & self.modifier()).is_empty())
+            // a modifier root is a modifier term itself, not only its descendants
+            .filter(|term| (&(term.all_parents() + *term.id()) & self.modifier()).is_empty())
             .map(|term| *term.id())
             .collect();
 
